@@ -18,7 +18,9 @@
     `len(x)`, a constant, a converted unsigned value, or `off + k` / a 14-bit pointer built from those; the
     entry points are called with `off = 0` (`Msg.Unpack`) and a negative value cannot arise.  64-bit overflow is
     not modelled (offsets are bounded by `len(msg) + 2^16`).  The ONE operation that could leave ℕ, subtraction of
-    `int`s, is translated into `Int` (`(↑a - ↑b : Int)`) and may only be compared, never stored.
+    `int`s, is translated into `Int` (`(↑a - ↑b : Int)`): such a value can be compared, added to, kept in a variable
+    of its own (which is then an `Int`, never one of the ℕ variables), converted to an unsigned type (two's
+    complement: `Int.toNat (x % 2^w)`), or used as an index / slice bound through `natOfInt` (negative: panic).
   * Pool buffers (`pool.GetBuf`, `copyBuf`) are plain copies.
 -/
 import MosVerif.Model.Wire
@@ -102,6 +104,37 @@ def natOfInt (i : Int) : Res Nat := if 0 ≤ i then .ok i.toNat else .panic
 /-- `pool.GetBuf(size)`: a slice of length `size` over a RECYCLED array — its contents are whatever the array held
     before (`dirty`, a parameter of the translated function), zeros where the array is fresh. -/
 def getBuf (dirty : Bytes) (size : Nat) : Bytes := dirty.take size ++ List.replicate (size - dirty.length) 0
+
+/-! ### `map[string]uint16`
+
+  `none` is the nil map; otherwise the bindings, NEWEST FIRST: an insertion prepends, a lookup takes the first binding
+  of the key — so a later insertion of the same key overrides the earlier one, as in Go.  Strings are their octets.
+  A map is a reference: a function that inserts returns the map as an extra result (like a slice written through).
+  Iteration order, `len`, `delete` are not modelled (no translated fragment uses them). -/
+abbrev Map := Option (List (Bytes × Nat))
+
+/-- `m == nil` -/
+def Map.isNil (m : Map) : Bool := m.isNone
+
+/-- the first (newest) binding of `k` -/
+def Map.find : List (Bytes × Nat) → Bytes → Option Nat
+  | [], _ => none
+  | (k', v) :: rest, k => if k' = k then some v else Map.find rest k
+
+/-- `v, ok := m[k]`: a nil map has no bindings; a missing key yields the zero value. -/
+def Map.lookup (m : Map) (k : Bytes) : Nat × Bool :=
+  match m with
+  | none => (0, false)
+  | some l =>
+    match Map.find l k with
+    | some v => (v, true)
+    | none => (0, false)
+
+/-- `m[k] = v`: assignment to an entry of a nil map panics. -/
+def Map.insert (m : Map) (k : Bytes) (v : Nat) : Res Map :=
+  match m with
+  | none => .panic
+  | some l => .ok (some ((k, v) :: l))
 
 /-- `NameBuilder.ToName()` after `NameBuilder.unpack` built `name` by appending to `n.buf[:0]` and stored
     `n.l = uint8(len(name))`: a copy of `n.buf[:n.l]`. `n.buf` is a 254-byte array; while `len(name) ≤ 254` the
